@@ -772,8 +772,42 @@ impl<'a> FnWeaver<'a> {
     }
 
     fn walk_expr(&mut self, e: &syn::Expr, active: &Vec<ScopeOb>) {
+        if self.has_fx {
+            self.wrap_lazy_rhs_guards(e);
+        }
         let mut v = PassB { w: self, active: active.clone() };
         v.visit_expr(e);
+    }
+
+    /// The second operand of `&&` / `||` is a temporary scope of its own: a temporary guard created there dies at
+    /// the end of that operand, before anything to its right runs.  X7-wrap such an operand and release there.
+    fn wrap_lazy_rhs_guards(&mut self, e: &syn::Expr) {
+        fn lazy(op: &syn::BinOp) -> bool {
+            matches!(op, syn::BinOp::And(_) | syn::BinOp::Or(_))
+        }
+        /// guard calls in `e` that are not inside the right operand of a nested lazy boolean
+        fn guard_outside_lazy_rhs(e: &syn::Expr, g: &[String]) -> bool {
+            match e {
+                syn::Expr::Binary(b) if lazy(&b.op) => guard_outside_lazy_rhs(&b.left, g),
+                syn::Expr::Paren(p) => guard_outside_lazy_rhs(&p.expr, g),
+                syn::Expr::Unary(u) => guard_outside_lazy_rhs(&u.expr, g),
+                _ => temp_guard_in(e, g),
+            }
+        }
+        match e {
+            syn::Expr::Binary(b) if lazy(&b.op) => {
+                self.wrap_lazy_rhs_guards(&b.left);
+                self.wrap_lazy_rhs_guards(&b.right);
+                if guard_outside_lazy_rhs(&b.right, &self.unit.guard_fns) {
+                    let (s, en) = (lo(b.right.span()), hi(b.right.span()));
+                    self.rewrite("X7", s, s, "{ let r__ = ".into());
+                    self.ghost(en, "; proof { fx.held = false; } r__ }".into(), 4);
+                }
+            }
+            syn::Expr::Paren(p) => self.wrap_lazy_rhs_guards(&p.expr),
+            syn::Expr::Unary(u) => self.wrap_lazy_rhs_guards(&u.expr),
+            _ => {}
+        }
     }
 
     fn local_scope_obs(&mut self, l: &syn::Local) -> Vec<ScopeOb> {
@@ -1119,17 +1153,15 @@ impl<'x, 'a, 'ast> Visit<'ast> for PassA<'x, 'a> {
                         }
                     }
                 }
-                // X10: core::ptr::read(E.as_ptr()) -> maybe_uninit_read(&E)   (raw-pointer read, unreadable for Verus)
+                // X10: core::ptr::read[::<T>](P) -> raw_ptr_read(P)   (raw-pointer read, unreadable for Verus; the
+                // pointer comes from MaybeUninit::as_ptr, whose stand-in specification says what is behind it)
                 if seg.ident == "read" && c.args.len() == 1 {
-                    let ptxt: String = self.w.src[lo(p.span())..hi(p.span())].chars().filter(|c| !c.is_whitespace()).collect();
+                    let mut ptxt: String = self.w.src[lo(p.span())..hi(p.span())].chars().filter(|c| !c.is_whitespace()).collect();
+                    if let Some(k) = ptxt.find("::<") {
+                        ptxt.truncate(k);
+                    }
                     if ptxt == "core::ptr::read" || ptxt == "ptr::read" || ptxt == "std::ptr::read" {
-                        if let syn::Expr::MethodCall(m) = &c.args[0] {
-                            if m.method == "as_ptr" && m.args.is_empty() {
-                                let recv = self.w.src[lo(m.receiver.span())..hi(m.receiver.span())].to_string();
-                                self.w.rewrite("X10", lo(c.span()), hi(c.span()), format!("maybe_uninit_read(&{})", recv));
-                                return;
-                            }
-                        }
+                        self.w.rewrite("X10", lo(p.span()), hi(p.span()), "raw_ptr_read".into());
                     }
                 }
                 // X3: Box::pin(E) -> PinBox::new(E)
